@@ -12,7 +12,7 @@ ID = "C41"
 QUICK_N = 400
 THOROUGH_N = 3000
 SHARD = 35
-RULE = ("each case is a list of 1-3 flows (HTTP request/response pairs, now and then a non-HTTP flow or an HTTP flow "
+RULE = ("each case is a list of 1-4 flows with distinct creation/start times that are mostly NOT in list order (HTTP request/response pairs, now and then a non-HTTP flow or an HTTP flow "
         "without response) exported with the real SaveHar.export_har to a file and read back with the real FlowReader. "
         "70% structured: method x version (HTTP/1.1, HTTP/2.0, HTTP/3, few HTTP/1.0 and HTTP/2) x Host/authority shape x "
         "header sets from a token dictionary (content-type with charsets, duplicates, content-length right/wrong/absent, "
@@ -214,10 +214,27 @@ def gen(rng, n, tier):
     out = []
     for _ in range(n):
         mutated = rng.chance(0.30)
-        k = rng.weighted([(76, 1), (16, 2), (8, 3)])
+        k = rng.weighted([(55, 1), (28, 2), (12, 3), (5, 4)])
         flows = [_gen_flow(rng, mutated and (i == k - 1 or rng.chance(0.3))) for i in range(k)]
         if rng.chance(0.08):
             flows.insert(rng.randint(0, len(flows)), {"t": "tcp"})
+        # creation times: distinct; the list is the order in which the flows are handed to the exporter (completion order for
+        # hardump, any order for save.har), which for 85% of the multi-flow cases is not the order of creation
+        m = len(flows)
+        tcs = []
+        while len(tcs) < m:
+            t = rng.randint(1, 5000)
+            if t not in tcs:
+                tcs.append(t)
+        tcs.sort()
+        if m > 1 and rng.chance(0.85):
+            perm = list(tcs)
+            while perm == tcs:
+                rng.shuffle(perm)
+            tcs = perm
+        for f, t in zip(flows, tcs):
+            f["tc"] = 1000.0 + t / 4.0
+            f["dur"] = rng.choice([0.5, 2.0, 30.0, 900.0])
         out.append({"flows": flows})
     return out
 
@@ -320,20 +337,27 @@ def setup_impl():
         _PROBE["hdr_se"] = False
 
 
-def _build(f):
+def _build(f, idx=0):
+    # creation / start times come from the case: distinct and in general NOT in list order (an earlier-started slow
+    # request that completes after a later one is handed to the exporter after it); old corpus cases default to list order
+    tc = float(f.get("tc", 1000.0 + 10 * idx))
+    dur = float(f.get("dur", 2.0))
     if f["t"] != "http":
-        return tcp.TCPFlow(connection.Client(peername=("127.0.0.1", 1), sockname=("127.0.0.1", 2), timestamp_start=1.0),
-                           connection.Server(address=("example.com", 1)))
+        fl = tcp.TCPFlow(connection.Client(peername=("127.0.0.1", 1), sockname=("127.0.0.1", 2), timestamp_start=tc),
+                         connection.Server(address=("example.com", 1)))
+        fl.timestamp_created = tc
+        return fl
     req = http.Request(f["host"], f["port"], f["method"].encode(), f["scheme"].encode(), unhx(f["auth"]), unhx(f["path"]),
                        f["ver"].encode(), http.Headers([(unhx(k), unhx(v)) for k, v in f["rh"]]),
-                       None if f["rb"] is None else unhx(f["rb"]), None, 1000.0, 1001.0)
-    fl = http.HTTPFlow(connection.Client(peername=("127.0.0.1", 1), sockname=("127.0.0.1", 2), timestamp_start=1000.0),
+                       None if f["rb"] is None else unhx(f["rb"]), None, tc, tc + 0.25)
+    fl = http.HTTPFlow(connection.Client(peername=("127.0.0.1", 1), sockname=("127.0.0.1", 2), timestamp_start=tc),
                        connection.Server(address=(f["host"], f["port"])))
+    fl.timestamp_created = tc
     fl.request = req
     r = f["resp"]
     if r is not None:
         fl.response = http.Response(r["ver"].encode(), r["status"], b"", http.Headers([(unhx(k), unhx(v)) for k, v in r["h"]]),
-                                    None if r["b"] is None else unhx(r["b"]), None, 1002.0, 1003.0)
+                                    None if r["b"] is None else unhx(r["b"]), None, tc + dur, tc + dur + 0.25)
     return fl
 
 
@@ -347,7 +371,8 @@ def _oh(b):
 
 def _prop_fields(fl):
     """the fields the property talks about, read from a real flow object (used by the oracle only)"""
-    d = {"method": fl.request.method, "url": _cps(fl.request.pretty_url), "ver": fl.request.http_version,
+    d = {"ts": fl.request.timestamp_start,
+         "method": fl.request.method, "url": _cps(fl.request.pretty_url), "ver": fl.request.http_version,
          "rh": _hl(fl.request.headers), "rbody": _oh(fl.request.get_content(strict=False)), "resp": None}
     if fl.response is not None:
         d["resp"] = {"status": fl.response.status_code, "ver": fl.response.http_version, "h": _hl(fl.response.headers),
@@ -387,7 +412,7 @@ def _jh(lst):
 
 def run_impl(case):
     global _REC
-    flows = [_build(f) for f in case["flows"]]
+    flows = [_build(f, i) for i, f in enumerate(case["flows"])]
     obs = {"hdr_se": _PROBE["hdr_se"], "export_error": None, "entries": [], "imp": [], "imp_failed": False, "imp_exc": None}
     obs["orig"] = [(_prop_fields(fl) if isinstance(fl, http.HTTPFlow) else None) for fl in flows]
     # model inputs that come from outside the anchored code: pretty_url of each request
@@ -731,6 +756,14 @@ def oracle(case, obs):
         return v
     origs = [(f, o) for f, o in zip(case["flows"], obs["orig"]) if o is not None]
     imps = obs["imp_prop"]
+    # "in the same order": every flow carries its own start time (distinct within a case, startedDateTime in the file), so
+    # position i of the import must show the start time of exported flow i -- whatever the other fields look like
+    want = [o["ts"] for _, o in origs][:len(imps)]
+    got = [i["ts"] for i in imps]
+    if any(abs(a - b) > 1e-3 for a, b in zip(want, got)):
+        add("unexpected-order-changed", f"flows handed to the exporter started at {[o['ts'] for _, o in origs]}, "
+                                        f"the imported flows (same positions) started at {got}")
+        return v
     if len(imps) > len(origs):
         add("unexpected-extra-flow", f"{len(imps)} flows imported from {len(origs)} exported")
     for idx, (f, o) in enumerate(origs):
@@ -751,10 +784,10 @@ def oracle(case, obs):
                 add("missing-request-body-import-fails", what + f"{f['method']} request without captured body exports postData.text = null")
             elif any(k.lower() == b"content-encoding" and x.lower() not in KNOWN_CE for k, x in sh):
                 add("unknown-content-encoding-import-fails", what + "the response has a Content-Encoding mitmproxy cannot encode")
-            elif any(k.lower() == b"content-encoding" and x.lower() not in KNOWN_CE for k, x in rh):
-                add("unknown-request-content-encoding-import-fails", what + "the request has a Content-Encoding mitmproxy cannot encode")
             elif o["codec_charset"]:
                 add("non-text-charset-import-fails", what + "a Content-Type charset names a Python codec that is not a text encoding")
+            elif any(k.lower() == b"content-encoding" and x.lower() not in KNOWN_CE for k, x in rh):
+                add("unknown-request-content-encoding-import-fails", what + "the request has a Content-Encoding mitmproxy cannot encode")
             else:
                 add("unexpected-import-failure", what + json.dumps(f)[:300])
             break
